@@ -129,13 +129,14 @@ PROP_OF = {"c01": "C01", "c02": "C02", "c03": "C03"}
 QUICK_OPS = {"getattr", "setlkw", "open", "release", "statfs", "getlk"}
 
 
-def reg_op(file, mod, variant, s_desc, quick=False, timeout=420, **kw):
+def reg_op(file, mod, variant, s_desc, quick=False, timeout=900, **kw):
     prop = PROP_OF[variant[:3]]
     stubs = kw.pop("stubs", SRV_STUBS)
+    extra_props = kw.pop("extra_props", [])
     geometry = {"": "request exactly the opcode's structure, ample reply buffer", "_long": "9 surplus request bytes, reply buffer exactly fits",
                 "_trunc": "request one byte short", "_nospace": "reply buffer one byte short", "_tiny": "reply buffer 15 bytes",
                 "_zero": "reply buffer 0 bytes", "_devfail": "device refuses the write"}.get(variant[3:], variant[3:])
-    reg(file, "%s::%s" % (mod, variant), [prop], tier="quick" if quick else "thorough", flavour="model", timeout=timeout,
+    reg(file, "%s::%s" % (mod, variant), [prop] + extra_props, tier="quick" if quick else "thorough", flavour="model", timeout=timeout,
         support=MSUP, cost=2,
         what="%s handler, %s assertions; %s" % (mod, prop, geometry),
         bounds="all header fields (len, unique, nodeid, uid, gid, pid) and all %s symbolic; filesystem answer symbolic (errno 1..4095, 9 non-OS kinds, all result fields) for C01/C03, plain success for C02; buffer lengths concrete per instance; unwind 16" % s_desc,
@@ -148,14 +149,15 @@ STD_VARIANTS = ["c01", "c02", "c03", "c01_long", "c01_trunc", "c01_nospace", "c0
 for op in ["getattr", "setattr", "open", "opendir", "statfs", "release", "releasedir", "fsync", "fsyncdir", "flush", "getlk",
            "setlk", "setlkw", "access", "bmap", "poll", "fallocate", "lseek"]:
     for v in STD_VARIANTS:
-        q = (op in QUICK_OPS and v in ("c01", "c02", "c03")) or (op == "getattr")
+        # every C02 decode check of the fixed-structure opcodes is cheap (~45 s): all in the quick tier
+        q = (op in QUICK_OPS and v in ("c01", "c02", "c03")) or (op == "getattr") or v == "c02"
         reg_op(OPS_A, op, v, "request-structure bytes", quick=q)
 for v in ["c01", "c02", "c01_trunc", "c01_long"]:
     reg_op(OPS_A, "forget_h", v, "body bytes", quick=v in ("c01", "c02"))
 for v in ["interrupt_c01", "interrupt_c02", "destroy_c01", "destroy_c01_devfail", "destroy_c02", "destroy_c03",
           "notify_reply_c01", "notify_reply_c02", "notify_reply_c03"]:
     prop = "C0" + v.split("_c0")[1][0]
-    reg(OPS_A, "misc_h::" + v, [prop], tier="thorough", flavour="model", timeout=420, support=MSUP, cost=2,
+    reg(OPS_A, "misc_h::" + v, [prop], tier="thorough", flavour="model", timeout=900, support=MSUP, cost=2,
         what="INTERRUPT/DESTROY/NOTIFY_REPLY shapes (%s)" % v, bounds="header and 8 body bytes symbolic", functions=SRV_FUNCS, stubs=SRV_STUBS,
         role="misc:%s" % v)
 for mod in ("readlink", "listxattr"):
@@ -175,7 +177,7 @@ for op in ["lookup", "mknod", "mkdir", "unlink", "rmdir", "link", "create", "rem
         reg_op(OPS_B, op, v, NDESC, quick=(op, v) in QUICK_B,
                stubs=SRV_STUBS + ["CStr::from_bytes_with_nul -> std's body with memchr replaced by a naive first-NUL loop (std's word-at-a-time memchr depends on pointer alignment)"])
 for v in ["c03_minor3", "c03_minor4"]:
-    reg(OPS_B, "lookup_neg::" + v, ["C03"], tier="quick", flavour="model", timeout=420, support=MSUP, cost=2,
+    reg(OPS_B, "lookup_neg::" + v, ["C03"], tier="quick", flavour="model", timeout=900, support=MSUP, cost=2,
         what="LOOKUP negative-entry rule for protocol minor %s" % v[-1], bounds="entry fully symbolic; minor concrete", functions=SRV_FUNCS + ["Server.vers (ArcSwap)"], stubs=SRV_STUBS, role="lookup_neg:C03")
 for v in ["c01", "c02", "c02_l8", "c01_lenhigh", "c01_ans", "c03", "c03_len0", "c03_len8", "c03_count", "c01_nospace", "c01_devfail"]:
     reg_op(OPS_B, "getxattr_h", v, "structure + 4 (8) name bytes; value of 0/3/8 symbolic bytes (length concrete per instance) or a count; " + NDESC, quick=v in ("c02", "c03"))
@@ -210,7 +212,8 @@ QUICK_C = {("read_h", "c01"), ("read_h", "c02"), ("read_h", "c03"), ("write_h", 
            ("readdirplus_h", "c03"), ("readdir_h", "c03_empty"), ("dirent_step_h", "c03_k1_n3"), ("dirent_step_h", "c03_plus_k1_n8"), ("readdir_h", "c03_sz63"), ("ioctl_h", "c01_insize_max"), ("batch_forget_h", "c01"), ("batch_forget_h", "c02"), ("readdir_h", "c01_tiny")}
 for mod, vs in C_FAM.items():
     for v in vs:
-        reg_op(OPS_C, mod, v, C_DESC[mod], quick=(mod, v) in QUICK_C, timeout=600)
+        reg_op(OPS_C, mod, v, C_DESC[mod], quick=(mod, v) in QUICK_C, timeout=900,
+               extra_props=["C16"] if (mod in ("dirent_step_h", "readdir_h", "readdirplus_h") and v.startswith("c03")) else [])
 
 DISP = "harness/model/srvsync__dispatch.rs"
 DISP_OPS = """lookup forget getattr setattr readlink symlink mknod mkdir unlink rmdir rename link open read write statfs release
@@ -252,8 +255,8 @@ VFS_ASSUME = ["Vfs constructed directly (struct literal): backends at index 1 an
               "id mappings are ranges inside the 32-bit id space (from+range, to+range <= 2^32)"]
 
 
-def reg_vfs(fn, props, quick=True, timeout=600, what="", bounds="", functions=None, unwind=None):
-    reg(VFS, fn, props, tier="quick" if quick else "thorough", flavour="real", timeout=timeout, timeout_thorough=1500, support=VSUP, cost=2,
+def reg_vfs(fn, props, quick=True, timeout=1500, what="", bounds="", functions=None, unwind=None):
+    reg(VFS, fn, props, tier="quick" if quick else "thorough", flavour="real", timeout=timeout, timeout_thorough=2400, support=VSUP, cost=2,
         mem=24 if "link" in fn else 12,
         what=what, bounds=bounds, functions=functions or [], stubs=VFS_STUBS, assumptions=VFS_ASSUME, role=fn,
         unwindset={"std::sync::Arc::<api::pseudo_fs::PseudoInode>::drop_slow": 1})
@@ -279,6 +282,9 @@ reg_vfs("c07_route_lookup_b", ["C07"], quick=False, what="LOOKUP wiring through 
 for v in ("c07_cross_rename_ab", "c07_cross_link_ba", "c07_same_rename_aa", "c07_same_link_bb"):
     reg_vfs(v, ["C07"], quick=v in ("c07_cross_rename_ab", "c07_same_link_bb"), what="rename/link across or within mounts", bounds="both inodes symbolic; mount pair concrete", functions=["Vfs::rename", "Vfs::link"])
 reg_vfs("c07_root_mount", ["C07"], quick=False, what="mount on the VFS root", bounds="concrete", functions=["Vfs::get_real_rootfs root special case", "Vfs::access"])
+for v, q in (("c07_rootmnt_rename_same", True), ("c07_rootmnt_rename_other_mount", False), ("c07_rootmnt_rename_pseudo_dir", True), ("c07_rootmnt_link_same_rev", False)):
+    reg_vfs(v, ["C07"], quick=q, what="two-directory operation naming the VFS root under a root mount", bounds="root mount of backend A; the other directory: 56 symbolic bits in A / in B / pseudo directory 2",
+            functions=["Vfs::rename", "Vfs::link", "Vfs::get_real_rootfs (root-mount resolution)"])
 for i, op in enumerate(["lookup", "getattr", "setattr", "mkdir", "mknod", "symlink", "link", "create", "readdirplus"]):
     for v in ("a", "b"):
         reg_vfs("c14_path_%s_%s" % (op, v), ["C14"], quick=(op, v) in (("lookup", "a"), ("setattr", "a"), ("setattr", "b"), ("readdirplus", "b"), ("mkdir", "a"), ("getattr", "b")),
